@@ -673,6 +673,19 @@ class SimulatedBroker(Broker):
                         )
                     )
 
+        # Likewise refuse it before anything is changed if a held position
+        # could not be re-marked at this (earlier) time
+        for portfolio in self.portfolios.values():
+            for asset, position in portfolio.pos_handler.positions.items():
+                if dt < portfolio.current_dt or dt < position.current_dt:
+                    raise ValueError(
+                        "Update datetime (%s) is earlier than the current "
+                        "datetime of the position in asset '%s' of portfolio "
+                        "'%s'. Cannot update the broker." % (
+                            dt, asset, portfolio.portfolio_id
+                        )
+                    )
+
         self.current_dt = dt
 
         # Update portfolio asset values
